@@ -23,7 +23,7 @@ def c14(seed, tmp):
         elif kind=='stringio': s=io.StringIO(newline=''); ws.append((kind,FileWriter(s),s))
         else: w=Rec(); ws.append((kind,w,w))
     expected={id(w):b"" for _,w,_ in ws}
-    registered=[]
+    registered=[]; reopen=set()
     class Tap(BaseWriter):
         def __init__(s): s.lines=[]
         def connect(s): return s
@@ -31,7 +31,7 @@ def c14(seed, tmp):
         def write(s,b): s.lines.append(b)
     tap=Tap(); g.add_writer(tap)
     for step in range(rnd.randint(5,25)):
-        k=rnd.choice(['add','add','remove','emit','emit','emit','flush'])
+        k=rnd.choice(['add','add','remove','emit','emit','emit','flush','teardown'])
         if k=='add':
             _,w,_=rnd.choice(ws); g.add_writer(w)
             if w not in registered: registered.append(w)
@@ -42,7 +42,20 @@ def c14(seed, tmp):
             n0=len(tap.lines)
             rnd.choice([lambda: g.move(x=rnd.randint(0,9)), lambda: g.comment("héllo ✓ %d"%step), lambda: g.tool_off(), lambda: g.set_distance_mode("relative")])()
             for b in tap.lines[n0:]:
-                for w in registered: expected[id(w)]+=b
+                for w in registered:
+                    if id(w) in reopen: expected[id(w)]=b""; reopen.discard(id(w))
+                    expected[id(w)]+=b
+        elif k=='teardown':
+            g.teardown()
+            for kind,w,h in ws:
+                if w in registered:
+                    got=content(kind,w,h)
+                    if got is not None and got!=expected[id(w)]: issues.append(('C14 content after mid teardown',seed,step,kind))
+                    if kind=='path': reopen.add(id(w))      # a path writer re-opens (truncates) at its next write
+            registered.clear(); g.add_writer(tap)
+            try:
+                g.get_writer(1); issues.append(('C14 writers left after teardown',seed,step))
+            except IndexError: pass
         else:
             g.flush()
             for kind,w,h in ws:
